@@ -204,6 +204,7 @@ func (w *asWorld) checkSubmission(c *asCert) {
 			w.fail(fmt.Sprintf("[C03] certificate %d imported exit %d carries another global index than the claim", c.id, i))
 		}
 	}
+	w.checkClaimProofs(c, cs)
 	// the exit root follows from the exits: append the wire exits' hashes to the tree of the previous root
 	if pc, ok := w.roots[prev]; ok {
 		var t depTree
@@ -362,6 +363,148 @@ func (w *asWorld) checkSettledChain() {
 	w.r.Case(fmt.Sprintf("chain:%d", min(len(settled), 6)))
 }
 
+// ---------- C09: the claim proofs inside a certificate ----------
+
+func h32(b *v1types.FixedBytes32) common.Hash {
+	if b == nil {
+		return common.Hash{}
+	}
+	return common.BytesToHash(b.Value)
+}
+func sibs(p *v1types.MerkleProof) []common.Hash {
+	out := make([]common.Hash, len(p.Siblings))
+	for i, s := range p.Siblings {
+		out[i] = h32(s)
+	}
+	return out
+}
+
+// digest of the claim data of one imported exit, from the wire message (same layout as ClaimData.Hash)
+func wireClaimDigest(ib *v1types.ImportedBridgeExit) (string, *v1types.L1InfoTreeLeafWithContext, []*v1types.MerkleProof) {
+	mph := func(p *v1types.MerkleProof) []byte {
+		buf := append([]byte{}, p.Root.Value...)
+		for _, s := range p.Siblings {
+			buf = append(buf, s.Value...)
+		}
+		return crypto.Keccak256(buf)
+	}
+	var lf *v1types.L1InfoTreeLeafWithContext
+	var proofs []*v1types.MerkleProof
+	switch c := ib.Claim.(type) {
+	case *v1types.ImportedBridgeExit_Mainnet:
+		lf, proofs = c.Mainnet.L1Leaf, []*v1types.MerkleProof{c.Mainnet.ProofLeafMer, c.Mainnet.ProofGerL1Root}
+	case *v1types.ImportedBridgeExit_Rollup:
+		lf, proofs = c.Rollup.L1Leaf, []*v1types.MerkleProof{c.Rollup.ProofLeafLer, c.Rollup.ProofLerRer, c.Rollup.ProofGerL1Root}
+	default:
+		return "noclaim", nil, nil
+	}
+	var buf []byte
+	for _, p := range proofs {
+		buf = append(buf, mph(p)...)
+	}
+	ts := make([]byte, 8)
+	for i := 0; i < 8; i++ {
+		ts[7-i] = byte(lf.Inner.Timestamp >> (8 * i))
+	}
+	buf = append(buf, crypto.Keccak256(lf.Inner.GlobalExitRoot.Value, lf.Inner.BlockHash.Value, ts)...)
+	return hx(crypto.Keccak256(buf)), lf, proofs
+}
+
+func hashList(hs []common.Hash) string {
+	parts := make([]string, len(hs))
+	for i, h := range hs {
+		parts[i] = hx(h[:])
+	}
+	return strings.Join(parts, ",")
+}
+
+// for every imported exit of a submitted certificate: the monitors of C09 and one `claimdata` line for the model
+func (w *asWorld) checkClaimProofs(c *asCert, cs []*bridgesync.Claim) {
+	q := c.req
+	cnt := int(q.GetL1InfoTreeLeafCount())
+	if len(q.ImportedBridgeExits) == 0 {
+		return
+	}
+	if cnt == 0 || cnt > len(w.l1Leaves) {
+		w.fail(fmt.Sprintf("[C09] certificate %d names %d L1 info leaves, the tree has %d", c.id, cnt, len(w.l1Leaves)))
+		return
+	}
+	root := w.l1Roots[cnt-1]
+	l1hashes := make([]common.Hash, cnt)
+	for i := 0; i < cnt; i++ {
+		l1hashes[i] = w.l1Leaves[i].hash
+	}
+	for i, ib := range q.ImportedBridgeExits {
+		w.r.Evals++
+		cl := cs[i]
+		digest, lf, proofs := wireClaimDigest(ib)
+		if lf == nil {
+			w.fail(fmt.Sprintf("[C09] certificate %d imported exit %d carries no claim data", c.id, i))
+			continue
+		}
+		mainnet, rollup, leafIdx, _ := bridgesync.DecodeGlobalIndex(cl.GlobalIndex)
+		_, isMainnet := ib.Claim.(*v1types.ImportedBridgeExit_Mainnet)
+		if isMainnet != mainnet {
+			w.fail(fmt.Sprintf("[C09] certificate %d imported exit %d: claim kind does not match the global index", c.id, i))
+			continue
+		}
+		gerProof := proofs[len(proofs)-1]
+		// (a) the L1 info leaf hashes with its proof to the root the certificate names, at the stated index
+		ts := make([]byte, 8)
+		for k := 0; k < 8; k++ {
+			ts[7-k] = byte(lf.Inner.Timestamp >> (8 * k))
+		}
+		leafHash := crypto.Keccak256Hash(lf.Inner.GlobalExitRoot.Value, lf.Inner.BlockHash.Value, ts)
+		if int(lf.L1InfoTreeIndex) >= cnt {
+			w.fail(fmt.Sprintf("[C09] certificate %d imported exit %d: L1 info leaf index %d is not below the certificate's leaf count %d", c.id, i, lf.L1InfoTreeIndex, cnt))
+		}
+		if h32(gerProof.Root) != root {
+			w.fail(fmt.Sprintf("[C09] certificate %d imported exit %d: the L1 info root of the proof is not the root with %d leaves", c.id, i, cnt))
+		}
+		if refCalcRoot(leafHash, sibs(gerProof), lf.L1InfoTreeIndex) != root {
+			w.fail(fmt.Sprintf("[C09] certificate %d imported exit %d: the L1 info leaf (index %d) does not hash with its proof to the L1 info root the certificate names (%d leaves)", c.id, i, lf.L1InfoTreeIndex, cnt))
+		}
+		// (b) the leaf's global exit root is the hash of its exit roots and the one the claim was made against
+		if crypto.Keccak256Hash(lf.Mer.Value, lf.Rer.Value) != h32(lf.Inner.GlobalExitRoot) || h32(lf.Inner.GlobalExitRoot) != cl.GlobalExitRoot {
+			w.fail(fmt.Sprintf("[C09] certificate %d imported exit %d: the L1 info leaf's global exit root is not keccak(mer, rer) of the claim", c.id, i))
+		}
+		// (c) the exit's own proofs lead from the claimed leaf to those exit roots
+		exitLeaf := wireExitHash(ib.BridgeExit)
+		if mainnet {
+			if refCalcRoot(exitLeaf, sibs(proofs[0]), leafIdx) != h32(lf.Mer) || h32(proofs[0].Root) != h32(lf.Mer) {
+				w.fail(fmt.Sprintf("[C09] certificate %d imported exit %d: the exit leaf does not hash with proof_leaf_mer to the mainnet exit root", c.id, i))
+			}
+		} else {
+			ler := refCalcRoot(exitLeaf, sibs(proofs[0]), leafIdx)
+			if ler != h32(proofs[0].Root) {
+				w.fail(fmt.Sprintf("[C09] certificate %d imported exit %d (rollup %d, leaf %d): the exit leaf does not hash with proof_leaf_ler to the stated local exit root", c.id, i, rollup, leafIdx))
+			}
+			if refCalcRoot(h32(proofs[0].Root), sibs(proofs[1]), rollup) != h32(lf.Rer) || h32(proofs[1].Root) != h32(lf.Rer) {
+				w.fail(fmt.Sprintf("[C09] certificate %d imported exit %d: the local exit root does not hash with proof_ler_rer to the rollup exit root", c.id, i))
+			}
+		}
+		w.r.Case(fmt.Sprintf("claim:%v:%d:%d", mainnet, min(int(leafIdx), 3), min(cnt-int(lf.L1InfoTreeIndex), 3)))
+		// the model's view: inputs from the reference world, observation from the wire
+		k := -1
+		for j := range w.l1Leaves {
+			if w.l1Leaves[j].ger == cl.GlobalExitRoot {
+				k = j
+				break
+			}
+		}
+		if k < 0 || k >= cnt {
+			continue
+		}
+		lk := w.l1Leaves[k]
+		gp := refProof(l1hashes, uint32(k))
+		op := fmt.Sprintf("claimdata %d %d %s %d %d %s %s %s %d %s %d %s %s %s %s", c.id, i, b2s(mainnet), rollup, leafIdx, hx(exitLeaf[:]),
+			hx(cl.MainnetExitRoot[:]), hx(cl.RollupExitRoot[:]), k, hx(lk.ph[:]), lk.ts, hx(root[:]),
+			hashList(cl.ProofLocalExitRoot[:]), hashList(cl.ProofRollupExitRoot[:]), hashList(gp[:]))
+		obs := fmt.Sprintf("claim h=%s idx=%d mer=%s rer=%s", digest, lf.L1InfoTreeIndex, hx(lf.Mer.Value[:4]), hx(lf.Rer.Value[:4]))
+		w.extra = append(w.extra, [2]string{op, obs})
+	}
+}
+
 // ---------- generator ----------
 
 func asGen(r *Run, rng *Rng) {
@@ -380,11 +523,50 @@ func asGen(r *Run, rng *Rng) {
 	}
 }
 
+// a claim token for a not yet claimed deposit that is covered by one of the first `finLeaves` L1 info leaves ("" if none)
+func (w *asWorld) claimTok(rng *Rng, finLeaves int) string {
+	if finLeaves == 0 {
+		return ""
+	}
+	for try := 0; try < 6; try++ {
+		k := rng.Intn(finLeaves)
+		lf := w.l1Leaves[k]
+		src := rng.Intn(5) - 1 // -1 = mainnet, else a rollup index
+		var ds []*asDep
+		n := 0
+		name := "m"
+		if src < 0 {
+			ds, n = w.metDeps, lf.metCount
+		} else {
+			ds, n = w.letDeps[uint32(src)], lf.letCount[uint32(src)]
+			name = fmt.Sprintf("r%d", src)
+		}
+		var free []int
+		for i := 0; i < n; i++ {
+			if !ds[i].claimed {
+				free = append(free, i)
+			}
+		}
+		if len(free) == 0 {
+			continue
+		}
+		i := free[rng.Intn(len(free))]
+		ds[i].claimed = true
+		return fmt.Sprintf("c:%d:%d:%s:%d:%d", len(ds[i].metadata), rng.U64()%1000000, name, i, k)
+	}
+	return ""
+}
+
 func asWorldGen(r *Run, rng *Rng, w *asWorld, steps int) {
 	do := func(l string) string {
 		out := w.exec(l)
 		r.Emit(l, out)
 		r.Count("op:" + strings.Fields(l)[0])
+		for _, e := range w.extra {
+			r.Emit(e[0], e[1])
+			r.Count("op:claimdata")
+		}
+		w.extra = nil
 		return out
 	}
 	start := uint64(0)
@@ -421,7 +603,7 @@ func asWorldGen(r *Run, rng *Rng, w *asWorld, steps int) {
 		}
 		do("status")
 		l2++
-		do(fmt.Sprintf("l2blk %d b:3:%d c:0:%d:0", l2, rng.U64()%1000000, rng.U64()%1000000))
+		do(strings.TrimSpace(fmt.Sprintf("l2blk %d b:3:%d %s", l2, rng.U64()%1000000, w.claimTok(rng, finLeaves))))
 		do("epoch!")
 		if w.node == nil {
 			do("restart")
@@ -455,10 +637,14 @@ func asWorldGen(r *Run, rng *Rng, w *asWorld, steps int) {
 						ml = 300 + rng.Intn(2000)
 					}
 				}
-				if rng.Chance(65) {
+				ct := ""
+				if !rng.Chance(65) {
+					ct = w.claimTok(rng, finLeaves)
+				}
+				if ct == "" {
 					toks = append(toks, fmt.Sprintf("b:%d:%d", ml, rng.U64()%1000000))
 				} else {
-					toks = append(toks, fmt.Sprintf("c:%d:%d:%d", ml, rng.U64()%1000000, rng.Intn(finLeaves)))
+					toks = append(toks, ct)
 				}
 			}
 			do(strings.TrimSpace(fmt.Sprintf("l2blk %d %s", l2, strings.Join(toks, " "))))
